@@ -26,7 +26,7 @@
                            children (they return early when there is no text)
      has_violation / goodb   the executable forms of `exists j, reach /\ violated` and `good` *)
 From PV Require Import Lib.Base Model.Schema Model.Validate Gen.SchemaTables
-  Proofs.Schema_lemmas Proofs.Validate_lemmas Proofs.Validate_table.
+  Proofs.Schema_lemmas Proofs.Validate_lemmas Proofs.Validate_table Proofs.Validate_anchor.
 Open Scope N_scope.
 
 (* ---------------------------------------------------------------- rejection *)
@@ -170,6 +170,64 @@ Print Assumptions C13_overrides_known.
 Theorem C13_attribute_value_rows_plain : plain_av actual_schema.
 Proof. exact actual_plain_av. Qed.
 Print Assumptions C13_attribute_value_rows_plain.
+
+(* ------------------------------------------------------------ no general escape hatch *)
+(* xsi:nil is AttributeValueBase.verify()'s business only.  For EVERY schema, primitive validators and
+   instance tree, and EVERY rewriting g of the extension-attribute dictionaries (add xsi:nil = true / 1,
+   drop it, replace everything) applied at every node whose class does not run AttributeValueBase.verify():
+   valid_instance and verify give the very same verdict - so an element that is refused stays refused
+   whatever extension attributes it, its ancestors or its descendants carry. *)
+Theorem C13_no_escape_hatch :
+  forall prim keys S NIL M1 M2 M3 M4 M5 M6 M7 M8 M9 M10 M11 g i,
+    valid_instance prim keys S NIL M1 M2 M3 M4 M5 M6 M7 M8 M9 M10 M11 (rewrite_xattrs S g i) =
+      valid_instance prim keys S NIL M1 M2 M3 M4 M5 M6 M7 M8 M9 M10 M11 i /\
+    verify prim keys S NIL M1 M2 M3 M4 M5 M6 M7 M8 M9 M10 M11 (rewrite_xattrs S g i) =
+      verify prim keys S NIL M1 M2 M3 M4 M5 M6 M7 M8 M9 M10 M11 i.
+Proof.
+  intros. split; [apply valid_instance_rewrite_xattrs|apply verify_rewrite_xattrs].
+Qed.
+Print Assumptions C13_no_escape_hatch.
+
+(* the root of valid_instance: its extension attributes are not looked at, whatever its class *)
+Theorem C13_root_extension_attributes_ignored :
+  forall prim keys S NIL M1 M2 M3 M4 M5 M6 M7 M8 M9 M10 M11 c a t K xa xa' xe,
+    valid_instance prim keys S NIL M1 M2 M3 M4 M5 M6 M7 M8 M9 M10 M11 (I c a t K xa xe) =
+    valid_instance prim keys S NIL M1 M2 M3 M4 M5 M6 M7 M8 M9 M10 M11 (I c a t K xa' xe).
+Proof. intros. reflexivity. Qed.
+Print Assumptions C13_root_extension_attributes_ignored.
+
+(* non-vacuity: on today's tables a class outside the AttributeValue family exists and g is applied to it *)
+Example C13_no_escape_hatch_applies :
+  exists c, av_class actual_schema c = false /\ find_row actual_schema c <> None /\
+    rewrite_xattrs actual_schema (fun _ _ => [(7, s2l "true")]) (I c [] None [] [] []) = I c [] None [] [(7, s2l "true")] [].
+Proof. exists 0. vm_compute. repeat split; discriminate. Qed.
+Print Assumptions C13_no_escape_hatch_applies.
+
+(* ------------------------------------------------------------ lexical tests look at the whole value *)
+(* the Gallina validators are anchored at both ends: junk after or before an accepted boolean is refused; an
+   accepted integer is, between the blanks int() strips, one optional sign and digits / single underscores
+   only; a name token holds no white space (line breaks included) at any place.  dateTime / duration are
+   parameters of the model (sample table compared with the real functions). *)
+Theorem C13_boolean_anchored :
+  forall v j, prim_boolean v = true -> j <> [] -> prim_boolean (v ++ j) = false /\ prim_boolean (j ++ v) = false.
+Proof. exact boolean_anchored. Qed.
+Print Assumptions C13_boolean_anchored.
+
+Theorem C13_integer_whole_value :
+  forall r v, prim_int r v = true ->
+    exists sg body, strip v = sg ++ body /\ (sg = [] \/ sg = [45] \/ sg = [43]) /\ forallb int_body_char body = true /\ body <> [].
+Proof. exact prim_int_whole. Qed.
+Print Assumptions C13_integer_whole_value.
+
+Theorem C13_integer_junk_refused :
+  forall a c b acc pd, int_body_char c = false -> digits_us (a ++ c :: b) acc pd = None.
+Proof. exact digits_us_junk. Qed.
+Print Assumptions C13_integer_junk_refused.
+
+Theorem C13_nmtoken_whole_value :
+  forall v, prim_nmtoken v = true -> v <> [] /\ forallb (fun c => negb (xml_ws c)) v = true.
+Proof. exact nmtoken_whole. Qed.
+Print Assumptions C13_nmtoken_whole_value.
 
 (* ------------------------------------------------------------ non-vacuity *)
 (* c13_ex_valid: a samlp.Response (assertion with subject confirmation, conditions, authn
